@@ -43,6 +43,24 @@ def run_cases(pid, cases, tag="impl", timeout=1500, jit=True, per_worker_min=6):
     return out
 
 
+def par_map(pid, module, func, args, tag="prep", timeout=1500):
+    """[harness.props.<module>.<func>(a) for a in args], spread over worker processes (common.run_impl slots)"""
+    args = list(args)
+    if not args:
+        return []
+    nwk = min(cm.NCPU, max(1, len(args) // 4))
+    chunks = [args[i::nwk] for i in range(nwk)]
+    res = cm.run_impl_parallel(pid, "penprep", [dict(module=module, func=func, args=c) for c in chunks],
+                               timeout=timeout, tag=tag)
+    out = [None] * len(args)
+    for w, rr in enumerate(res):
+        if rr["status"] != "ok":
+            raise RuntimeError(f"harness oracle worker {w} ended with {rr['status']}: {rr.get('log', '')[-400:]}")
+        for i, x in zip(range(w, len(args), nwk), rr["result"]["results"]):
+            out[i] = x
+    return out
+
+
 # ----------------------------------------------------------------------------- exact vertices of polytopes
 def poly_vertices(spec):
     """[(vertex as 3 Fractions, point witness string of type Pen.pwit)] of a box / hull / mesh collider,
